@@ -206,7 +206,7 @@ PROPS = {
         "trusted_base": COMMON_TB + ["Expand/Expand.v: resolve / load / ptr_get transcribed from resolveRef, load and jsonpointer v0.21.1",
                                      "tools/c05_oracle.py (urllib's RFC 3986 join, a 15-line RFC 6901 evaluator)"],
         "level_text": "Coq theorems (Props/C05.v): a successful resolution is the typed decoding of exactly the object the pointer designates in the document normalizeURI designates — never a value for a missing or non-object target; for EVERY kind and every way of supplying the root (typed, generic, location only) and whatever the cache holds, a successful resolution returns sem_target_k (reference resolved against the base, document served there, pointer evaluated, value read as the kind) — hence the same answer however the root is supplied (Expand/ExpandElem.v: resolve_sem_k); the way the root is supplied cannot matter for references with a URI part; ~0/~1 escaping is undone exactly; resolution needs no fuel. The model's resolve agrees with the implementation on thousands of (graph, ref, kind, root mode) cases per run.",
-        "level_note": "Partial: equality of typed-root lookups (JSONLookup) with generic lookups is property C15; it is assumed here. F13 (ResolveRef on a typed root at union positions) is an open finding.",
+        "level_note": "Partial: equality of typed-root lookups (JSONLookup) with generic lookups is property C15; it is assumed here. F13 (ResolveRef on a typed root at union positions) was repaired (fix commit ce2a398).",
         "technique": "Coq proof about the resolver model + differential run + independent oracle",
         "assumptions": ["the typed root is observed through its JSON encoding (C15)"],
     },
